@@ -190,6 +190,9 @@ func (e *Exec) scanCallMods(fn *ssa.Function, c *ssa.CallCommon, ms *modSet, see
 		ct = e.cs.ByKey[fnKey(callee)]
 	}
 	if ct != nil && !ct.Inline {
+		if g := ct.Attrs["result-ghost"]; g != "" {
+			ms.comps["G."+g] = arraySort(SInt, SInt)
+		}
 		if ct.ModFn != "" {
 			pk := e.w.Pkgs[ct.PkgPath]
 			if mf := pk.SSA.Func(ct.ModFn); mf != nil {
@@ -210,6 +213,11 @@ func (e *Exec) scanCallMods(fn *ssa.Function, c *ssa.CallCommon, ms *modSet, see
 											name, s := e.ti.elemComp(sl.Elem(), l.path)
 											ms.comps[name] = arraySort(SInt, arraySort(SInt, s))
 										}
+									}
+								case "vcModGhost":
+									if cst, ok := cc.Call.Args[0].(*ssa.Const); ok {
+										gn := constantString(cst)
+										ms.comps["G."+gn] = arraySort(SInt, e.ghostSortOf(gn))
 									}
 								case "vcModMap":
 									mc := e.mapComps(cc.Call.Args[0].Type().Underlying().(*types.Map))
@@ -250,7 +258,7 @@ func (e *Exec) scanCallMods(fn *ssa.Function, c *ssa.CallCommon, ms *modSet, see
 			}
 			return
 		}
-		if len(nm) > 5 && nm[:5] == "spec_" {
+		if (len(nm) > 5 && (nm[:5] == "spec_" || nm[:5] == "Spec_")) || e.cs.Preds[fnKey(callee)] {
 			return
 		}
 	}
@@ -263,7 +271,7 @@ func (e *Exec) scanCallMods(fn *ssa.Function, c *ssa.CallCommon, ms *modSet, see
 
 func isIntrinsic(nm string) bool {
 	switch nm {
-	case "specAssert", "specAssume", "vcForall", "vcExists", "vcTrigger1", "vcTrigger2", "vcTrigger3", "vcOldBegin", "vcOld", "vcMod1", "vcModElems", "vcModMap", "vcFresh", "vcByteStr":
+	case "specAssert", "specAssume", "vcForall", "vcExists", "vcTrigger1", "vcTrigger2", "vcTrigger3", "vcOldBegin", "vcOld", "vcMod1", "vcModElems", "vcModMap", "vcFresh", "vcByteStr", "vcModGhost", "vcSameSlice":
 		return true
 	}
 	return false
@@ -519,4 +527,23 @@ func (e *Exec) probe(st *State, name, where string) {
 	}
 	e.obls = append(e.obls, &Obligation{Name: full, Kind: "vacuity", Fn: e.fnKey, Props: e.props, PC: st.pc, Goal: tFalse,
 		NAssume: len(e.assumptions), NDecl: len(e.smt.decls), Where: where, Expect: "sat"})
+}
+
+// ghostSortOf finds the declared ghost function by name in any package and returns its result sort.
+func (e *Exec) ghostSortOf(name string) string {
+	if s, ok := e.ghostSorts[name]; ok {
+		return s
+	}
+	for _, pk := range e.w.Pkgs {
+		if pk.SSA == nil {
+			continue
+		}
+		if fn := pk.SSA.Func(name); fn != nil {
+			s := e.ti.sortOf(fn.Signature.Results().At(0).Type())
+			e.ghostSorts[name] = s
+			return s
+		}
+	}
+	e.unsupported("ghost function %s is not declared", name)
+	return SInt
 }
